@@ -109,7 +109,8 @@ func (p *specRewriter) group(lo, hi int) string {
 	i := lo
 	for i < hi {
 		// quantifier at segment start swallows the rest of the group
-		if p.toks[i].tok == token.IDENT && (p.toks[i].lit == "forall" || p.toks[i].lit == "exists") {
+		// (a quantifier keyword is followed by a binder name; a program variable called `exists` is not)
+		if p.toks[i].tok == token.IDENT && (p.toks[i].lit == "forall" || p.toks[i].lit == "exists") && i+1 < hi && p.toks[i+1].tok == token.IDENT {
 			parts = append(parts, p.quant(i, hi))
 			i = hi
 			break
